@@ -47,10 +47,21 @@ ASSUMPTIONS = ['floating-point rounding is outside the model: comparison is exac
                'on the tie of resumed and half-resumed calls',
                'adupdates_refines is conditional on hoisted proximal = per-iteration proximal '
                '(hypothesis hprox; discharged on the code only by the optimised-vs-simple oracle)',
-               'random orders (random=True), accelerated PDHG (gamma_primal/gamma_dual), callable '
-               'lam and line searches with memory (estimate_step=True with a fresh object) are '
+               'line searches with memory (estimate_step=True with a fresh object) are '
                'excluded from the resume claim; weighted spaces only with equal constant weights '
-               'on both sides and cell volumes of 1-d grids; no complex spaces']
+               'on both sides and cell volumes of 1-d grids; no complex spaces',
+               'ROUND 4: resumption of paths with MORE state than the iterate is claimed only with that '
+               'state handed back: callable lam with the schedule shifted by n (stream proxgrad_lam), '
+               'accelerated PDHG with x_relax, y and the recomputed tau_n, sigma_n (stream pdhg_acc; '
+               'irrational square roots: compared with the general-stream tolerance, exact only in the '
+               'first iteration of the cases with 1 + 2*gamma*step = 4), kaczmarz(random=True) with '
+               'numpy\'s global generator left running between the calls (stream kaczmarz_random). '
+               'conjugate_gradient(_normal) and admm_linearized called again with the returned x are '
+               'RESTARTS (direction p / z, u reset), modelled as such (stream cg_restart), not resumptions; '
+               'cg_* theorems need a linear operator',
+               'proximal factories of the accelerated PDHG stream are written a second time in Lean '
+               '(FSpec in Drivers/C11.lean); the gamma=none cases of that stream compare them with the '
+               'real proximals and, through the constant machine, with the PSpec closed forms']
 
 
 # ---------------------------------------------------------------------------
@@ -1293,6 +1304,16 @@ def family_cg_restart(ctx, r, exact, n, opaque=False):
                 viol(ctx, key + ': first iterate of the second call',
                      'is not the exact-line-search steepest-descent step from the returned x: ' + dd,
                      p, n=a, m=b)
+        # a restart is a complete CG run from x_n: d further iterations solve the (normal) equations
+        # (well-conditioned small systems only; this is what a wrong carried residual / direction breaks)
+        if variant == 'cg' or (np.linalg.matrix_rank(M) == d and np.linalg.cond(M) < 50):
+            st_c, _, xc = call(mid, d)
+            res = rhs - M.dot(xc) if variant == 'cg' else M.T.dot(rhs - M.dot(xc))
+            scale = 1.0 + float(np.max(np.abs(rhs))) * (1.0 if variant == 'cg' else float(np.max(np.abs(M))) * d)
+            ctx.hit('oracle/cg_restart: second call with dim iterations solves the system')
+            if st_c != 'ok' or not sl.finite(res) or float(np.max(np.abs(res))) > 1e-6 * scale:
+                viol(ctx, key + ': second call with niter = dim', 'does not solve the {}equations: residual {} ({})'.format(
+                    '' if variant == 'cg' else 'normal ', res, st_c), p, n=a, m=d)
         st_d, log_d, end_d = call(mid, b, sl.unflat_distinct)
         ctx.hit('resume/equal-distinct-space/cg_restart')
         if st_d != 'ok' or sl.arrays_differ(log_d, log2):
